@@ -438,6 +438,9 @@ func runOne(world, prop string, seed uint64, rp *Replay) *Result {
 		res.Yields = rc.Sched.Yields
 		res.YCalls = rc.Sched.Calls
 		res.Steered = rc.Sched.Steered
+		if rc.Sched.Longs > 0 {
+			rc.faults["long_delay_of_one_goroutine"] += int64(rc.Sched.Longs)
+		}
 	}
 	res.Digest = fmt.Sprintf("%016x", fnv(rc.log.Bytes()))
 	if *flagDump {
